@@ -397,6 +397,18 @@ def cases_helpers(L, tier, seed):
                 yield hn, ram._handle_negative_indices, dict(first_dimension=np.array(r), second_dimension=np.array(c), lengths=lengths.copy(), starts=starts.copy()), ('negatives', lens, r, c)
         for s in slices(-n, n, (None, 1, 2, 3)):
             yield sl, ram._slice_to_list, dict(slice_func=s, length=n), ('slice', n, str(s))
+        # the class method under the contracts the prover discharges for it (1-d elements)
+        rows_d = [np.arange(s_, s_ + l_) * 10 + 1 for s_, l_ in zip(starts, lengths)]
+        Rg = ra.RaggedArray(np.concatenate(rows_d), lengths=lengths.copy())
+        gp = RI.GetItem('paired')
+        for r in rs[::2]:
+            for c in cs[::(5 if tier == 'quick' else 2)]:
+                yield gp, (lambda self, iis: self[iis]), dict(self=Rg, iis=(np.array(r), np.array(c))), ('getitem-paired', lens, r, c)
+        for rows_ in ([0], [n - 1, 0], list(range(n))[::-1]):
+            for a_ in (None, 0, 1, -1):
+                for b_ in (None, 1, 2, mx, -1):
+                    g2 = RI.GetItem('rows-slice', a_ is None, b_ is None, exclude={'ra-2d-slice-empty-row'})
+                    yield g2, (lambda self, iis: self[iis]), dict(self=Rg, iis=(np.array(rows_), slice(a_, b_))), ('getitem-rows-slice', lens, rows_, a_, b_)
         il, isl = RI.IisFromList(), RI.IisFromSlices(exclude=EXCL | ({'ra-2d-slice-empty-row'} if PROP == 'C06' else set()))
         row_sels = [list(range(n)), [n - 1], [0, 0], list(range(n))[::-1], [n - 1, 0]]
         for rows_ in row_sels:
